@@ -77,6 +77,10 @@ type WorkerOut struct {
 	Stats      *Stats           `json:"stats"`
 	Violations []Violation      `json:"violations,omitempty"`
 	Replays    []string         `json:"replays,omitempty"`
+	// OrigReplays: for each violation, the case as it was first drawn (before rapid shrank it); "" when
+	// that is the reported case. A failure that depends on what the same process ran before - state the
+	// engine keeps per process - shrinks to a case that does not fail on its own; the original may.
+	OrigReplays []string `json:"orig_replays,omitempty"`
 	HarnessErr []string         `json:"harness_errors,omitempty"`
 	KnownHits  map[string]int64 `json:"known_hits,omitempty"`
 }
@@ -327,7 +331,7 @@ func TestWorker(t *testing.T) {
 		v    Violation
 		seed uint64
 	}
-	var fail *failure
+	var fail, firstFail *failure
 	for batch := uint64(0); time.Now().Before(deadline) && out.Stats.Runs < maxChecks && fail == nil; batch++ {
 		rs := mix(seed, uint64(worker), batch)
 		out.Seeds = append(out.Seeds, rs)
@@ -335,7 +339,7 @@ func TestWorker(t *testing.T) {
 		_ = flag.Set("rapid.checks", "40")
 		tb := &fakeTB{}
 		var target string
-		var last *failure
+		var last, first *failure
 		func() {
 			defer func() {
 				if r := recover(); r != nil {
@@ -377,12 +381,16 @@ func TestWorker(t *testing.T) {
 						target = v.Rule
 					}
 					last = &failure{c: c, r: r, v: v, seed: rs}
+					if first == nil {
+						first = last
+					}
 					rt.Fatalf("%s", v.Rule)
 				}
 			})
 		}()
 		if last != nil {
 			fail = last
+			firstFail = first
 		} else if tb.failed {
 			// rapid reported a failure that no oracle raised: a generator or harness panic
 			out.HarnessErr = append(out.HarnessErr, "rapid failure without an oracle violation: "+strings.Join(tb.msgs, " | "))
@@ -412,6 +420,19 @@ func TestWorker(t *testing.T) {
 		}
 		out.Violations = append(out.Violations, v)
 		out.Replays = append(out.Replays, name)
+		orig := ""
+		if firstFail != nil && firstFail.c != fail.c {
+			of := &ReplayFile{Property: prop, Rule: firstFail.v.Rule, Shape: firstFail.v.Shape, Message: firstFail.v.Msg, RapidSeed: firstFail.seed, Case: firstFail.c, Result: firstFail.r,
+				Minimised: map[string]any{"note": "the case as first drawn; not shrunk"}}
+			if firstFail.c.Program != nil {
+				of.YAML, of.Files = firstFail.c.Program.YAML(), firstFail.c.Program.Files()
+			}
+			of.Seed = rf.Seed + 1000000000 // a name of its own next to the shrunk one
+			if on, err := writeReplay(replayDir, of); err == nil {
+				orig = on
+			}
+		}
+		out.OrigReplays = append(out.OrigReplays, orig)
 	}
 	out.WallS = time.Since(start).Seconds()
 	out.Stats.Finalize()
